@@ -243,3 +243,54 @@ theorem instr_list (ms : List (M P)) (rc : Bool) (t : σ × Nat) :
 end
 
 end FuModel.Find.Expr
+
+namespace FuModel.Find.Expr
+variable {P σ : Type} (sem : P → σ → Bool × σ) (quit : σ → Bool)
+
+-- whatever relation (reflexive, transitive) every primary respects, the evaluation of a whole tree respects
+mutual
+theorem rel_M (R : σ → σ → Prop) (hr : ∀ s, R s s) (ht : ∀ a b c, R a b → R b c → R a c)
+    (hs : ∀ p s, R s (sem p s).2) (m : M P) (s : σ) : R s (M.eval sem quit m s).2 := by
+  match m with
+  | .prim p => simpa [M.eval] using hs p s
+  | .not m => simpa [M.eval] using rel_M R hr ht hs m s
+  | .and ms => simpa [M.eval] using rel_and R hr ht hs ms s
+  | .or ms => simpa [M.eval] using rel_or R hr ht hs ms s
+  | .list ms => simpa [M.eval] using rel_list R hr ht hs ms false s
+theorem rel_and (R : σ → σ → Prop) (hr : ∀ s, R s s) (ht : ∀ a b c, R a b → R b c → R a c)
+    (hs : ∀ p s, R s (sem p s).2) (ms : List (M P)) (s : σ) : R s (evalAnd sem quit ms s).2 := by
+  match ms with
+  | [] => simpa [evalAnd] using hr s
+  | m :: ms =>
+    simp only [evalAnd]
+    have h1 := rel_M R hr ht hs m s
+    split
+    · exact h1
+    · split
+      · exact h1
+      · exact ht _ _ _ h1 (rel_and R hr ht hs ms _)
+theorem rel_or (R : σ → σ → Prop) (hr : ∀ s, R s s) (ht : ∀ a b c, R a b → R b c → R a c)
+    (hs : ∀ p s, R s (sem p s).2) (ms : List (M P)) (s : σ) : R s (evalOr sem quit ms s).2 := by
+  match ms with
+  | [] => simpa [evalOr] using hr s
+  | m :: ms =>
+    simp only [evalOr]
+    have h1 := rel_M R hr ht hs m s
+    split
+    · exact h1
+    · split
+      · exact h1
+      · exact ht _ _ _ h1 (rel_or R hr ht hs ms _)
+theorem rel_list (R : σ → σ → Prop) (hr : ∀ s, R s s) (ht : ∀ a b c, R a b → R b c → R a c)
+    (hs : ∀ p s, R s (sem p s).2) (ms : List (M P)) (rc : Bool) (s : σ) : R s (evalList sem quit ms rc s).2 := by
+  match ms with
+  | [] => simpa [evalList] using hr s
+  | m :: ms =>
+    simp only [evalList]
+    have h1 := rel_M R hr ht hs m s
+    split
+    · exact h1
+    · exact ht _ _ _ h1 (rel_list R hr ht hs ms _ _)
+end
+
+end FuModel.Find.Expr
